@@ -536,3 +536,37 @@ end Qryn.Sql
 namespace Qryn.Sql
 theorem get_nil (k : String) : Row.get [] k = .null := rfl
 end Qryn.Sql
+
+namespace Qryn.Sql
+
+/-- groups of two lists that agree under `f`/`f'`, grouped by keys that are functions of that common image,
+    correspond one to one (same order, members agreeing under `f`/`f'`) -/
+theorem groups_rel {α β γ κ κ' δ} [BEq κ] [LawfulBEq κ] [BEq κ'] [LawfulBEq κ'] (f : α → γ) (f' : β → γ) (K : γ → κ')
+    (enc : κ' → κ) (hinj : ∀ a b, enc a = enc b → a = b) (l : List α) (l' : List β) (h : l.map f = l'.map f')
+    (F : List α → δ) (F' : List β → δ)
+    (hF : ∀ A B, A ≠ [] → (∀ a ∈ A, a ∈ l) → (∀ b ∈ B, b ∈ l') → A.map f = B.map f' → F A = F' B) :
+    (groupsBy (fun a => enc (K (f a))) l).map (fun g => F g.2) = (groupsBy (fun b => K (f' b)) l').map (fun g => F' g.2) := by
+  unfold groupsBy
+  have hk : l.map (fun a => enc (K (f a))) = (l'.map (fun b => K (f' b))).map enc := by
+    have := congrArg (List.map (fun x => enc (K x))) h
+    simpa [List.map_map, Function.comp_def] using this
+  rw [hk, eraseDups_map_inj enc hinj]
+  simp only [List.map_map, Function.comp_def]
+  apply List.map_congr_left
+  intro k hk'
+  have hfr := filter_rel f f' (fun a => enc (K (f a)) == enc k) (fun b => K (f' b) == k) l l' h (by
+    intro a _ b _ hab
+    rw [hab, Bool.eq_iff_iff]
+    simp only [beq_iff_eq]
+    exact ⟨hinj _ _, fun e => by rw [e]⟩)
+  apply hF _ _ _ (fun a ha => (List.mem_filter.mp ha).1) (fun b hb => (List.mem_filter.mp hb).1) hfr
+  rw [List.mem_eraseDups] at hk'
+  obtain ⟨b, hb, rfl⟩ := List.mem_map.mp hk'
+  intro he
+  have : (List.filter (fun b' => K (f' b') == K (f' b)) l').map f' = [] := by rw [← hfr, he]; rfl
+  have hb' : b ∈ List.filter (fun b' => K (f' b') == K (f' b)) l' := List.mem_filter.mpr ⟨hb, by simp⟩
+  have := List.map_eq_nil_iff.mp this
+  rw [this] at hb'
+  simp at hb'
+
+end Qryn.Sql
